@@ -172,6 +172,14 @@ def program_text(use, dest, etext):
         return f"enum E {{ P = 3, A = {etext}, B }};\n{T} g = A;\n{T} h = B;\n"
     if use == "arraysize":
         return f"char g[{etext}];\n"
+    if use.startswith("bitwidth"):
+        # C28 only: the WIDTH of a bit-field is the symbolic constant; the field is loaded, stored and initialised.
+        # bitwidthK: K bits of the same storage type precede the field (its bit offset inside the unit)
+        k = int(use[8:] or 0)
+        pre = f"{T} a : {k}; " if k else ""
+        return (f"struct S {{ {pre}{T} b : {etext}; {T} c : 3; }};\nstruct S g;\n"
+                f"{T} rd(void) {{ return g.b; }}\nvoid wr({T} v) {{ g.b = v; g.c = 1; }}\n"
+                f"{T} loc({T} v) {{ struct S l = {{ {'1, ' if k else ''}v, 2 }}; return l.b; }}\n")
     raise ValueError(use)
 
 
@@ -193,6 +201,8 @@ def _var(mod, name):
 
 
 def observe(use, mod):
+    if use.startswith("bitwidth"):
+        return 0
     from ppci import ir
     if use in ("global", "array", "field", "bitfield"):
         return _flat(_var(mod, "g").value)
@@ -304,6 +314,8 @@ class CExprHarness(Harness):
             # 6.7.6.2p1: greater than zero; bound: fits int (ppci converts the size to int)
             E._undef(True, sym_or(v < 1, v > dm.hi("int")))
             exp = v
+        elif use.startswith("bitwidth"):
+            exp = 0                                                    # C28 only: no value is compared
         else:
             raise ValueError(use)
         return exp, E.defined, E.flags
@@ -359,6 +371,15 @@ class CExprHarness(Harness):
             finally:
                 CSemantics.on_number = orig
                 cutils.cnum = orig_cnum
+                # class-level interning cache of blob types: drop entries keyed by symbolic sizes (bit-field widths)
+                from ppci import ir as _ir
+                cache = getattr(_ir.BlobDataTyp, "_cache", None)
+                if isinstance(cache, dict):
+                    keep = [(k, v) for k, v in cache.items()
+                            if not any(isinstance(x, core.SymInt) for x in (k if isinstance(k, tuple) else (k,)))]
+                    if len(keep) != len(cache):
+                        cache.clear()
+                        cache.update(keep)
         else:
             text = program_text(self.use, self.dest,
                                 self.render(self.expr, lambda i, s: f"{int(lv[i])}{'' if s == 'auto' else s}"))
